@@ -144,7 +144,7 @@ partial def loop (h : IO.FS.Stream) : IO Unit := do
     -- the byte-level tar model on a real archive: list it, rebuild it from the listing, compare byte for byte
     let a := parseHex hex
     match tarRead (a.length / 512 + 2) a with
-    | .ok es =>
+    | .ok (es, _) =>
       let b := tarArchive es
       let first := match es.head? with | some e => String.fromUTF8! (ByteArray.mk e.1.toArray) | none => "-"
       let sig := a.take 10 == "peppi.json".toUTF8.toList
